@@ -519,7 +519,7 @@ class Check(CheckBase):
             "un-deduplicated op sequences to depth d (quick 2 / thorough 3) on fresh objects; every edge "
             "compared with a bytes-slice reference; raw-sector (MDF) view additionally for EVERY sector count 1..159 (thorough "
             "..639) x ragged tail {0,100} with the real constants and 1..63 x tail 0..6 with tiny ones, each under a fixed "
-            "probe program (size, whole content, reads across the first / middle / last sector boundaries); five real-size stacks (20 000-byte "
+            "probe program (size, whole content, reads across the first / middle / last sector boundaries); seven real-size stacks (40 raw sectors read with single requests of 32..80 KiB, bare and under a window; 20 000-byte "
             "reversed window, 25 000-byte offset window, 6 x 8192 chained file, the Roland shape reversed-over-window-over-4 x 9216 "
             "chained file, 12 raw sectors) probed with LONG reads (4096..20 000 bytes and to the end: several internal buffers, two and "
             "more whole sectors inside one read) from 7 start positions; 27 configurations of TWO "
@@ -555,7 +555,7 @@ class Check(CheckBase):
             out.append({"mode": "sizes", "hbf": [2, 4, 1], "lo": 1, "hi": 64, "rag": rag})
         # long views and LONG READS (more than one internal 4096-byte buffer, two and more whole sectors in the middle of one
         # read): fixed probe programs on real-size stacks
-        for k in ("reversed", "file8192", "file9216-reversed", "mdf-real", "offset"):
+        for k in ("reversed", "file8192", "file9216-reversed", "mdf-real", "offset", "mdf-real-40", "offset-over-mdf-40"):
             out.append({"mode": "long", "kind": k})
         # two views over one shared parent: product graph of both views' histories (plus direct use of the parent)
         for c in overhang_configs():
@@ -767,13 +767,22 @@ class Check(CheckBase):
         if kind == "mdf-real":
             raw = base_bytes(2352 * 12)
             return MDF.MdfStream(io.BytesIO(raw)), mdf_logical(raw, 16, 2048, 288), 0, 2048
+        if kind == "mdf-real-40":
+            # 40 raw sectors: single reads of 32 KiB .. 80 KiB (more than 16 sectors in one request), from unaligned positions
+            raw = base_bytes(2352 * 40)
+            return MDF.MdfStream(io.BytesIO(raw)), mdf_logical(raw, 16, 2048, 288), 0, 2048
+        if kind == "offset-over-mdf-40":
+            raw = base_bytes(2352 * 40 + 100)
+            lg = mdf_logical(raw[:2352 * 40], 16, 2048, 288)
+            return S.StreamOffset(MDF.MdfStream(io.BytesIO(raw)), 70000, 3001), lg[3001:73001], 0, 2048
         raise core.HarnessError(kind)
 
     def _long(self, shard, rep):
         kind = shard["kind"]
         stream, content, width, s_ = self._long_build(kind)
         L = len(content)
-        sizes = sorted({4096, 4098, 8192, 8194, 3 * s_, 3 * s_ + 2, 2 * s_ + 4096, 16384, 18434, 20000, L, L + 2, -1})
+        sizes = sorted({4096, 4098, 8192, 8194, 3 * s_, 3 * s_ + 2, 2 * s_ + 4096, 16384, 18434, 20000, L, L + 2, -1} |
+                       ({32766, 32768, 32770, 16 * s_ + 1, 17 * s_, 33 * s_ + 5, 65536} if L > 66000 else set()))
         starts = sorted({0, 2, s_ - 2, s_, s_ + 2, 4096, L - 8194 if L > 8194 else 0})
         prog = []
         for o in starts:
